@@ -6,11 +6,11 @@ CONSTANTS
   Mode = "enum"
   MaxCost = 1000000000
   NE = 0
-  TagSymF = {0, 1, 2, 4, 5, 6, 7}
-  TagRefF = {0, 1, 2, 3, 5, 30, 31}
+  TagSymF = {0, 1, 2, 4, 7}
+  TagRefF = {0, 1, 2, 5, 31}
   DataBytes = {97, 98}
-  UintLead = {128, 129, 130, 131, 132, 133, 134, 135, 136, 137, 255, 64, 32, 16, 15, 8, 3}
-  UintCont = {0, 1, 4, 8, 253, 255}
+  UintLead = {128, 129, 130, 132, 133, 136, 137, 64, 16, 15, 3}
+  UintCont = {0, 4, 253, 255}
   ElemSet <- ElemsTiny
   SubstVals = {0}
 INIT Init
